@@ -159,6 +159,17 @@ static void c08_head(unsigned ib, uint64_t arg, size_t argn) {
       for (int i = 0; i < 16; i++) vb_u8(&b, (uint8_t)i);
       c08_case(b.p, head + 7);
       c08_case(b.p, head + 16);
+      /* megabyte strings with most of the payload already buffered: the hint must still be within the item */
+      if (arg <= ((uint64_t)1 << 25) + 2) {
+        b.n = head;
+        vb_reserve(&b, (size_t)arg + 2);
+        memset(b.p + b.n, 0x6b, (size_t)arg + 1);
+        b.n += (size_t)arg + 1;
+        size_t full = head + (size_t)arg;
+        const size_t lens[] = {head + (size_t)arg / 2, head + (size_t)arg / 2 + 1, head + (size_t)arg / 4 * 3, full - 1, full, full + 1};
+        for (size_t i = 0; i < sizeof lens / sizeof lens[0]; i++) c08_case(b.p, lens[i]);
+        VH_COUNT("megabyte_string_heads", 1);
+      }
     }
   }
   vb_free(&b);
@@ -491,6 +502,31 @@ static void c09_run_all(void) {
     if (s.n == 0) vb_u8(&s, 0xf6);
     c09_stream(s.p, s.n, &r);
     VH_COUNT("streams", 1);
+  }
+  /* streams holding one big string between two small items, cut where a size-dependent hint would go wrong: inside the
+   * length argument, at the end of the head, and with a quarter / half / most / all but one byte of the payload buffered */
+  {
+    static const size_t L[] = {65539, (size_t)1 << 20, ((size_t)1 << 20) + 5, (size_t)3 << 19, ((size_t)1 << 22) + 1};
+    int unit = 0;
+    for (size_t li = 0; li < sizeof L / sizeof L[0]; li++)
+      for (int text = 0; text < 2; text++) {
+        if (unit++ % O.nshards != O.shard) continue;
+        vb_reset(&s);
+        vb_u8(&s, 0x01);
+        vb_u8(&s, text ? 0x7a : 0x5a); vb_be(&s, L[li], 4);
+        size_t head_end = s.n;
+        vb_reserve(&s, L[li] + 2);
+        memset(s.p + s.n, 'k', L[li]); s.n += L[li];
+        vb_u8(&s, 0x02);
+        const size_t at[] = {1, 3, head_end - 1, head_end, head_end + 1, head_end + L[li] / 4, head_end + L[li] / 2, head_end + L[li] / 2 + 1, head_end + L[li] / 4 * 3, head_end + L[li] - 1, head_end + L[li], s.n - 1};
+        uint32_t cuts[3];
+        c09_case(s.p, s.n, cuts, 0);
+        for (size_t a = 0; a < sizeof at / sizeof at[0]; a++) {
+          cuts[0] = (uint32_t)at[a]; c09_case(s.p, s.n, cuts, 1);
+          for (size_t b2 = a + 1; b2 < sizeof at / sizeof at[0]; b2 += 3) { cuts[1] = (uint32_t)at[b2]; c09_case(s.p, s.n, cuts, 2); }
+        }
+        VH_COUNT("streams_with_a_megabyte_string", 1);
+      }
   }
   vb_free(&s);
 }
